@@ -49,10 +49,9 @@ Kind(e, want) ==
 
 Init == l = 1 /\ bad = 0
 Step == /\ l <= Len(Rec)
-        /\ LET e == Rec[l]
-               want == Flats(Commands(e.t))
-               k == Kind(e, want)
-           IN /\ (IF k = "ok" THEN TRUE
+        \* (want, k bound by \E: a LET definition is evaluated again in every conjunct of an action)
+        /\ LET e == Rec[l] IN \E want \in {Flats(Commands(e.t))} : \E k \in {Kind(e, want)} :
+              /\ (IF k = "ok" THEN TRUE
                   ELSE PrintT(<<IF k = "bad" THEN "MISMATCH" ELSE "HARNESS", l, ToJson(e), ToJson(want)>>))
               /\ bad' = IF k = "ok" THEN bad ELSE bad + 1
         /\ l' = l + 1
